@@ -150,6 +150,37 @@ func (p *Program) contractFor(fn *ssa.Function) *FuncContract {
 
 func (p *Program) contractByFull(key string) *FuncContract { return p.contracts[key] }
 
+// GhostFunc is an uninterpreted specification function declared in a contract file.
+type GhostFunc struct {
+	Name   string
+	Params []string
+	Result string
+}
+
+var ghostRe = regexp.MustCompile(`^func\s+([A-Za-z_][A-Za-z0-9_]*)\s*\(([^)]*)\)\s*(\S+)$`)
+
+func (p *Program) ghostFunc(pkgPath, name string) *GhostFunc {
+	for _, cf := range p.files {
+		if cf.PkgPath != pkgPath {
+			continue
+		}
+		for _, g := range cf.Ghosts {
+			m := ghostRe.FindStringSubmatch(strings.TrimSpace(g))
+			if m == nil || m[1] != name {
+				continue
+			}
+			gf := &GhostFunc{Name: m[1], Result: m[3]}
+			for _, a := range strings.Split(m[2], ",") {
+				if a = strings.TrimSpace(a); a != "" {
+					gf.Params = append(gf.Params, a)
+				}
+			}
+			return gf
+		}
+	}
+	return nil
+}
+
 func (p *Program) typesPkg(path string) *types.Package {
 	if pk, ok := p.allPkgs[path]; ok {
 		return pk.Types
